@@ -80,6 +80,7 @@ type mapEntry struct {
 type Map struct {
 	kt      types.Type
 	traced  bool // lookups by constant string key are recorded (verifrt.TraceKeys)
+	raceCell Value // stands for the map object in the race monitor (Go's detector treats map operations as reads/writes of the map)
 	idx     map[any]*mapEntry
 	order   []*mapEntry
 	n       int
